@@ -4,6 +4,7 @@ does not know is "not decided"."""
 import re
 
 from ..prov import prov, show, subterms
+from ..core import callee_of, callee_decl
 
 MOD = "sat::sat_solver"
 _IDENT = re.compile(
@@ -130,6 +131,10 @@ def rule_literal_algebra(ctx):
                         r.check(any(t[0] == "field" and t[2] == "1" and t[1][0] == "elem" for t in subterms(second)), it.id + "|value", "value-source", "with the value of that slot", "Assignment::iter pairs the number with %s, not the value of the slot" % show(second)[:80], c.loc())
         if not done:
             r.ok(it.id + "|numbering", "NOT decided: no per-slot closure returning a pair", it.loc())
+        # every slot is reported: no adaptor that drops or reorders between the slot vector and the pairs
+        drops = sorted({callee_decl(callee_of(x)).rsplit("::", 1)[-1] for x in it.calls() if re.search(r"Iterator::(skip|take|filter|filter_map|step_by|skip_while|take_while|map_while)$", callee_decl(callee_of(x)) or "")})
+        n += 1
+        r.check(not drops, it.id + "|all-slots", "slots-dropped:%s" % drops, "every slot of the model is reported", "Assignment::iter goes through %s: some variables of the model are not reported, and what decodes a model from it misses them" % drops, it.loc())
     r.floor(n, 8, "functions of the literal algebra evaluated")
 
 
